@@ -80,6 +80,11 @@ type Sched struct {
 	// pointFn receives VerifPoint callbacks.
 	pointFn func(node, site string, owner interface{})
 
+	// AutoOn enables the "auto." sites of the rewritten repository copy (A
+	// flavour); LocksFree tells whether every mutex of a node is free.
+	AutoOn    bool
+	LocksFree func(node string) bool
+
 	SiteHits map[string]int // how often each site was reached
 	ParkHits map[string]int // how often a goroutine parked at each site
 	steps    atomic.Int64   // progress counter for the watchdog
@@ -150,7 +155,15 @@ func (s *Sched) yield(owner interface{}, site string) {
 	s.mu.Lock()
 	node := s.nodeOf(owner)
 	s.SiteHits[site]++
-	if s.passThrough[node] || s.siteOn == nil || !s.siteOn(node, site) {
+	if strings.HasPrefix(site, "auto.") {
+		// Inserted in front of a lock acquisition in the rewritten copy of the
+		// repository (A flavour). Never park inside a critical section: a
+		// goroutine that already holds a mutex of its node runs on.
+		if !s.AutoOn || s.passThrough[node] || (s.LocksFree != nil && !s.LocksFree(node)) {
+			s.mu.Unlock()
+			return
+		}
+	} else if s.passThrough[node] || s.siteOn == nil || !s.siteOn(node, site) {
 		s.mu.Unlock()
 		return
 	}
